@@ -44,6 +44,63 @@ macro_rules! api_program {
                 s.finish()
             }
 
+            #[derive(Clone, PartialEq, Debug)]
+            #[repr(align(128))]
+            struct A128(u8);
+            #[derive(Clone, PartialEq, Debug)]
+            #[repr(align(4096))]
+            struct A4096(u16);
+            #[derive(Clone, PartialEq, Debug)]
+            struct Odd([u8; 3]);
+
+            /// payload shapes: zero-sized, tiny, odd-sized, large, over-aligned — every raw-pointer path and the
+            /// count API must behave the same whatever the layout of `T`
+            fn shape_trip<T: Clone + PartialEq + std::fmt::Debug>(name: &str, val: T, sum: fn(&T) -> u64) {
+                // construction from a box and from a value, for this layout
+                let fb: Rc<T> = Rc::from(Box::new(val.clone()));
+                let fv: Rc<T> = Rc::from(val.clone());
+                let from_ok = *fb == val && *fv == val && Rc::strong_count(&fb) == 1 && Rc::weak_count(&fv) == 0;
+                let fbw = Rc::downgrade(&fb);
+                drop(fb);
+                let from_dead = fbw.upgrade().is_none();
+                drop(fbw);
+                drop(fv);
+                log(format!("shape {} from-box/from-value {} {}", name, from_ok, from_dead));
+                let r: Rc<T> = Rc::new(val.clone());
+                let aligned = (Rc::as_ptr(&r) as usize) % std::mem::align_of::<T>().max(1) == 0;
+                let w = Rc::downgrade(&r);
+                let w_same = w.as_ptr() == Rc::as_ptr(&r);
+                let p = Rc::into_raw(Rc::clone(&r));
+                let p_same = p == Rc::as_ptr(&r);
+                unsafe { Rc::increment_strong_count(p) };
+                let c1 = (Rc::strong_count(&r), Rc::weak_count(&r));
+                unsafe { Rc::decrement_strong_count(p) };
+                let back = unsafe { Rc::from_raw(p) };
+                let eq_back = Rc::ptr_eq(&back, &r) && *back == val;
+                drop(back);
+                let wp = w.into_raw();
+                let w2 = unsafe { Weak::from_raw(wp) };
+                let up = w2.upgrade();
+                let up_ok = up.as_ref().map(|u| Rc::ptr_eq(u, &r) && **u == val).unwrap_or(false);
+                drop(up);
+                let c2 = (Rc::strong_count(&r), Rc::weak_count(&r), w2.strong_count(), w2.weak_count());
+                let mut r = r;
+                let gm = Rc::get_mut(&mut r).is_some();
+                let mut r2 = Rc::clone(&r);
+                let mm = sum(Rc::make_mut(&mut r2));
+                let distinct = !Rc::ptr_eq(&r, &r2);
+                drop(r2);
+                let un = Rc::try_unwrap(r);
+                let (un_ok, un_sum) = match &un { Ok(v) => (*v == val, sum(v)), Err(_) => (false, 0) };
+                let dead = (w2.upgrade().is_none(), w2.strong_count(), w2.weak_count());
+                let w3 = unsafe { Weak::from_raw(w2.into_raw()) };
+                let dead2 = w3.upgrade().is_none();
+                log(format!(
+                    "shape {} aligned {} wptr {} rawptr {} c1 {:?} back {} up {} c2 {:?} getmut {} makemut {} {} unwrap {} {} dead {:?} {}",
+                    name, aligned, w_same, p_same, c1, eq_back, up_ok, c2, gm, mm, distinct, un_ok, un_sum, dead, dead2
+                ));
+            }
+
             pub fn run(seed: u64) -> String {
                 LOG.with(|l| l.borrow_mut().clear());
                 let mut x = seed | 1;
@@ -53,6 +110,14 @@ macro_rules! api_program {
                     x ^= x << 17;
                     x
                 };
+                shape_trip::<()>("unit", (), |_| 0);
+                shape_trip::<[u8; 0]>("empty-array", [], |_| 0);
+                shape_trip::<u8>("u8", (seed % 251) as u8, |v| *v as u64);
+                shape_trip::<Odd>("odd3", Odd([1, (seed % 200) as u8, 3]), |v| v.0.iter().map(|b| *b as u64).sum());
+                shape_trip::<[u64; 625]>("big5000", [seed % 1000; 625], |v| v.iter().sum());
+                shape_trip::<A128>("align128", A128((seed % 199) as u8), |v| v.0 as u64);
+                shape_trip::<A4096>("align4096", A4096((seed % 60000) as u16), |v| v.0 as u64);
+                shape_trip::<(u8, A128, u8)>("tuple-pad", (1, A128(2), (seed % 7) as u8), |v| v.0 as u64 + v.1 .0 as u64 + v.2 as u64);
                 for round in 0..40 {
                     let a = (next() % 7) as i64 - 3;
                     let b = (next() % 7) as i64 - 3;
